@@ -382,10 +382,15 @@ def run(ctx):
             for ans in faults:
                 if kind in ("dir", "newNonce") and ans.startswith("err:") and ans != "err:unauthorized:403":
                     continue
-                q = build_request(h, n_ca, n_kt)
-                q["script"] = [{"idx": cp, "kind": kind, "answer": ans}]
-                q["meta"]["fault"] = [kind, ans]
-                ireqs.append(q)
+                for twice in (False, True):
+                    # twice: the same daemon process makes a second attempt after the interrupted one (what it remembers of the
+                    # interrupted synchronisation is carried into it), before the optional restart and the clean renewal
+                    q = build_request(h, n_ca, n_kt)
+                    q["script"] = [{"idx": cp, "kind": kind, "answer": ans}]
+                    q["meta"]["fault"] = [kind, ans + ("|then-second-attempt" if twice else "")]
+                    if twice:
+                        q["phases"][1]["attempts"] = 2
+                    ireqs.append(q)
     iobs = e1.run_all(ctx.pool, ireqs, 120.0)
     npos = 0
     for q, o in zip(ireqs, iobs):
